@@ -225,6 +225,7 @@ class Glue:
         self.program = program
         self.max_depth = max_depth
         self.depth = 0
+        self.stack = []
 
     # ----------------------------------------------------------- lookup
     def lookup(self, name, path, closure, mod):
@@ -430,9 +431,12 @@ class Glue:
         return Term('call', fv, *args)
 
     def call_func(self, fv, args, kwargs, path, node):
-        if self.depth >= self.max_depth:
-            raise GlueUnsupported('call depth')
         fn = fv.fn
+        if fn.qual in self.stack or self.depth >= self.max_depth:
+            # recursion (or very deep nesting): modular treatment
+            path.effects.append(Effect('callrepo', fv, (tuple(args), kwargs),
+                                       getattr(node, 'lineno', 0)))
+            return Term('call', Ext('repo:' + fn.qual), *args)
         params = list(fn.params)
         env = {}
         pos = list(args)
@@ -456,10 +460,12 @@ class Glue:
         probe = path.fork()
         probe.env = env
         self.depth += 1
+        self.stack.append(fn.qual)
         try:
             pouts = self.block(fn.body(), [probe], fv.closure, fn.module, fn)
         finally:
             self.depth -= 1
+            self.stack.pop()
         plive = [q for q in pouts if q.raised is None]
         if len(plive) != 1:
             if all(len(q.effects) == n_eff for q in pouts):
@@ -475,10 +481,12 @@ class Glue:
             return Term('call', Ext('repo:' + fn.qual), *args)
         path.env = env
         self.depth += 1
+        self.stack.append(fn.qual)
         try:
             outs = self.block(fn.body(), [path], fv.closure, fn.module, fn)
         finally:
             self.depth -= 1
+            self.stack.pop()
         # calls inside wiring code: a single returning path is required
         live = [q for q in outs if q.raised is None]
         if len(live) != 1 or live[0] is not path:
@@ -503,7 +511,7 @@ class Glue:
         for s in stmts:
             new = []
             for p in paths:
-                if p.done or p.raised:
+                if p.done or p.raised or getattr(p, 'brk', False):
                     new.append(p)
                     continue
                 new.extend(self.stmt(s, p, closure, mod, fn))
@@ -519,6 +527,12 @@ class Glue:
 
     def s_Pass(self, s, p, c, m, fn):
         return [p]
+
+    def s_Continue(self, s, p, c, m, fn):
+        p.brk = True
+        return [p]
+
+    s_Break = s_Continue
 
     def s_Expr(self, s, p, c, m, fn):
         if isinstance(s.value, ast.Constant):
@@ -555,6 +569,13 @@ class Glue:
     def s_AugAssign(self, s, p, c, m, fn):
         cur = self.ev(ast.parse(ast.unparse(s.target), mode='eval').body, p,
                       c, m)
+        if isinstance(cur, Fresh) and cur.kind in ('set', 'list', 'dict'):
+            # in-place update of a container made in this activation
+            p.effects.append(Effect('mutate', cur, ('augassign',
+                                                    type(s.op).__name__),
+                                    s.lineno))
+            self.ev(s.value, p, c, m)
+            return [p]
         v = Term('binop', type(s.op).__name__, cur, self.ev(s.value, p, c, m))
         self.assign(s.target, v, p, c, m)
         return [p]
@@ -598,8 +619,11 @@ class Glue:
             paths = [p]
             for x in it.items:
                 for q in paths:
+                    q.brk = False
                     self.assign(s.target, x, q, c, m)
                 paths = self.block(s.body, paths, c, m, fn)
+            for q in paths:
+                q.brk = False
             return paths
         # opaque iterable: the body once, for an arbitrary element
         self.assign(s.target, Term('elem', it), p, c, m)
@@ -607,6 +631,7 @@ class Glue:
         p.effects.append(Effect('loop-begin', it, (), s.lineno))
         outs = self.block(s.body, [p], c, m, fn)
         for q in outs:
+            q.brk = False
             q.effects.append(Effect('loop-end', it, (), s.lineno))
         return outs
 
@@ -700,4 +725,8 @@ class Glue:
         for k, v in (kwargs or {}).items():
             env[k] = v
         path.env = env
-        return self.block(fn.body(), [path], {}, fn.module, fn)
+        self.stack.append(fn.qual)
+        try:
+            return self.block(fn.body(), [path], {}, fn.module, fn)
+        finally:
+            self.stack.pop()
